@@ -189,6 +189,12 @@ def apply_shadow(doc, op):
             ms = list(itertools.islice(find_matches(b.steps(op[1]), doc), op[2] + 1))
             if len(ms) > op[2]:
                 set_match(b.steps(op[3]), val(op[4]), ms[op[2]], cascade=op[5])
+        elif k == "mget_sd":
+            from treepath import find_matches
+            import itertools
+            ms = list(itertools.islice(find_matches(b.steps(op[1]), doc), op[2] + 1))
+            if len(ms) > op[2]:
+                get(b.steps(op[3]), ms[op[2]], default=val(op[4]), store_default=True)
         elif k == "mpop":
             from treepath import find_matches
             import itertools
@@ -327,7 +333,11 @@ def gen_mutate(rng, profile):
             steps, _ = target_path(rng, shadow)
             op = [rng.choice(["set", "set", "set_match"]), steps, gen_valspec(rng, shadow), False]
         elif profile == "cascade":
-            if r < 0.12 and prev_paths:
+            if rng.random() < 0.08:
+                # get(..., store_default=True) with a Match as data source: the path may climb above the Match
+                ms = gen_mset(rng, shadow, cascade=True)
+                op = ["mget_sd", ms[1], ms[2], ms[3], ms[4]]
+            elif r < 0.12 and prev_paths:
                 pp = rng.choice(prev_paths)
                 op = ["pop", pp[:rng.randint(1, len(pp))] if pp else pp, ["val", ["new", None]]]
             elif r < 0.7:
